@@ -53,7 +53,8 @@ def config(draw, reuse=None):
     return dict(groups=groups, aliases=aliases, order=list(order), crlf=draw(st.booleans()),
                 alias_typedef=bool(aliases) or draw(st.booleans()), masktype_rows=draw(st.booleans()),
                 cols=draw(st.sampled_from(['standard', 'standard', 'alias-swapped', 'bits-swapped', 'both-swapped'])),
-                final_newline=draw(st.sampled_from([True, True, False])), indent=draw(st.sampled_from([0, 0, 1, 2])), nodesc=draw(st.sampled_from([0, 0, 1, 3])))
+                final_newline=draw(st.sampled_from([True, True, False])), indent=draw(st.sampled_from([0, 0, 1, 2])), nodesc=draw(st.sampled_from([0, 0, 1, 3])),
+                blank_lines=draw(st.sampled_from([0, 0, 2, 5])))
 
 
 def mixcase(draw, s):
@@ -134,6 +135,15 @@ def render(cfg):
             return r[:q].rstrip() if q > 0 else r
         rows = [strip_desc(r) if (i + nd) % 4 == 0 else r for i, r in enumerate(rows)]
     rows.insert(len(rows) // 2, '#------------------------------------------------------------------------------')
+    bl = cfg.get('blank_lines', 0)
+    if bl:
+        # separator lines between blocks of rows: empty, or holding only blanks / a tab
+        out = []
+        for i, r in enumerate(rows):
+            if i and i % bl == 0:
+                out.append(('', '  ', '\t', ' \t')[(i // bl) % 4])
+            out.append(r)
+        rows = out
     nl = '\r\n' if cfg['crlf'] else '\n'
     return nl.join(lines + rows) + (nl if cfg.get('final_newline', True) else '')
 
